@@ -5,4 +5,5 @@ import "verifharness/core"
 // registerAll makes every executor available to TestReplay.
 func registerAll() {
 	core.Register("C08", execC08)
+	core.Register("C01", execC01)
 }
